@@ -216,11 +216,14 @@ def _cell_proj(v):
         p = project_text(v)
         rest = "".join(p["residue"]).strip()
         if p["ids"] and not _ALNUM.search(rest):
-            return {"k": "ids", "v": p["ids"], "s": ""}
-        return {"k": "lit", "v": [], "s": v[:60]} if v.strip() != "" else {"k": "ids", "v": [], "s": ""}
+            return {"k": "ids", "v": p["ids"], "s": "", "v2": p["ids"]}
+        if v.strip() == "":
+            return {"k": "ids", "v": [], "s": "", "v2": []}
+        # v2: the token ids found after deleting all white space (a word broken by inserted blanks)
+        return {"k": "lit", "v": [], "s": v[:60], "v2": project_text(re.sub(r"\s+", "", v))["ids"]}
     if v is None:
-        return {"k": "ids", "v": [], "s": ""}
-    return {"k": "val", "v": [], "s": f"{type(v).__name__}:{v!r}"[:60]}
+        return {"k": "ids", "v": [], "s": "", "v2": []}
+    return {"k": "val", "v": [], "s": f"{type(v).__name__}:{v!r}"[:60], "v2": []}
 
 
 def observe(job):
